@@ -55,7 +55,7 @@ func c05Unit(n corev1.ResourceName) resource.Quantity {
 func TestVerifC05Fit(t *testing.T) {
 	node := c05BigNode()
 	kit.Run(t, kit.Config{Property: "C05", Unit: "fit", Quick: 60000, Thorough: 1500000,
-		Rule: "restricted reservation (random reserved resources, optional pods capacity, restricted options, inner reserved amount) with 0-4 assigned pods added through AddAssignedPod; 75%: victims = random subset of the assigned pods (preemptible = their summed requests + pod count); 25%: victims = subset of the assigned pods plus a pod that is only nominated to the reservation, sized so that in 1..all reserved resources preemptible = allocated + 1 unit or + a lot (a third of these with no assigned pod at all); pod request biased to remaining-1 / remaining / remaining+1 unit / far above in one reserved dimension (remaining = reserved - held back - max(0, allocated - preemptible)); 40% of the calls go through fitsNodeAndReservation on a node that always fits; distinct = (#dims, pods capacity, inner reserved, #assigned, #victims, victim mode, excess class, entry point, boundary class, accepted, fits); non-trivial = a request within one unit of the remaining amount with at least one assigned pod or with a preemptible amount above the allocated amount"},
+		Rule: "restricted reservation (random reserved resources, optional pods capacity, restricted options incl. lists that are disjoint from / partially overlap / duplicate / mis-case the reserved resources, edited on the live reservation in 30%, inner reserved amount) with 0-4 assigned pods added through AddAssignedPod; 75%: victims = random subset of the assigned pods (preemptible = their summed requests + pod count); 25%: victims = subset of the assigned pods plus a pod that is only nominated to the reservation, sized so that in 1..all reserved resources preemptible = allocated + 1 unit or + a lot (a third of these with no assigned pod at all); pod request biased to remaining-1 / remaining / remaining+1 unit / far above in one reserved dimension (remaining = reserved - held back - max(0, allocated - preemptible)); 40% of the calls go through fitsNodeAndReservation on a node that always fits; distinct = (#dims, pods capacity, inner reserved, #assigned, #victims, victim mode, excess class, entry point, boundary class, accepted, fits); non-trivial = a request within one unit of the remaining amount with at least one assigned pod or with a preemptible amount above the allocated amount"},
 		func(c *kit.Case) {
 			r := c.R
 			alloc := c05GenRequests(r, []int{90, 75, 35, 15})
@@ -89,10 +89,6 @@ func TestVerifC05Fit(t *testing.T) {
 				c05SetInnerReserved(res, inner)
 			}
 			ri := frameworkext.NewReservationInfo(res)
-			dims, ok := c05Dims(res)
-			if !ok {
-				c.Harness("dimensions undetermined for a generated reservation")
-			}
 			k := r.Weighted(25, 30, 25, 15, 5)
 			// victim mode: "subset" = victims are assigned pods; "above" = a nominated-only victim makes the
 			// preemptible amount exceed the allocated amount
@@ -116,6 +112,19 @@ func TestVerifC05Fit(t *testing.T) {
 				ri.AddAssignedPod(p)
 				assigned = append(assigned, &apod{uid: p.UID, req: c05PodRequests(p)})
 			}
+			// 30%: the restricted-options annotation of the live reservation is edited after the pods were assigned
+			optionsUpdated := false
+			if r.Pct(30) {
+				res = res.DeepCopy()
+				c05GenOptions(r, res)
+				ri.UpdateReservation(res)
+				optionsUpdated = true
+			}
+			dims, ok := c05Dims(res)
+			if !ok {
+				c.Harness("dimensions undetermined for a generated reservation")
+			}
+			optClass := c05OptionsClass(res)
 			var dimList []corev1.ResourceName
 			for _, n := range c05ResNames {
 				if dims[n] {
@@ -342,6 +351,23 @@ func TestVerifC05Fit(t *testing.T) {
 			if victims > 0 {
 				c.Count("fit_with_victims", 1)
 			}
+			c.Count("fit_options_"+optClass, 1)
+			if optClass == "disjoint" {
+				if accepted {
+					c.Count("fit_options_disjoint_accepted", 1)
+				} else {
+					c.Count("fit_options_disjoint_rejected", 1)
+				}
+				if boundary != "far" {
+					c.Count("fit_options_disjoint_boundary", 1)
+				}
+			}
+			if optionsUpdated {
+				c.Count("fit_options_updated_on_live_reservation", 1)
+				if k > 0 {
+					c.Count("fit_options_updated_with_assigned_pods", 1)
+				}
+			}
 			if above {
 				c.Count("fit_preemptible_above_allocated", 1)
 				c.Count("fit_preemptible_above_allocated_by_"+excess, 1)
@@ -363,7 +389,7 @@ func TestVerifC05Fit(t *testing.T) {
 					c.Count("note_accepted_over_pods_that_stay_with_nominated_victim", 1)
 				}
 			}
-			c.Seen(len(dimList), podsCap >= 0, len(inner) > 0, k, victims, mode, excess, entry, boundary, accepted, fits && fitsInner && fitsPods)
+			c.Seen(len(dimList), podsCap >= 0, len(inner) > 0, k, victims, mode, excess, entry, boundary, accepted, fits && fitsInner && fitsPods, optClass, optionsUpdated)
 			if accepted && !fits {
 				c.Fail("C05/fit/over-reserved", "%s accepted a pod that does not fit the restricted reservation:%s", entry, why)
 			}
